@@ -232,6 +232,13 @@ def run(ctx):
                f"catch_unwind sites {len(cu)}; user-code points outside it: {[(bb, s['kind']) for bb, s in unc] or 'none'}")
         gl = GuardLiveness(b)
         ru = [(bb, t) for bb, t in b.calls() if callee_key(t["callee"]).endswith("panic::resume_unwind")]
+        # `result.unwrap_or_else(|p| resume_unwind(p))`: the panic is re-raised inside the adaptor call that receives the closure
+        from ..analysis import _closure_receiver_call
+        for c in prog.closures_of(b):
+            if any(callee_key(t["callee"]).endswith("panic::resume_unwind") for _bb, t in c.calls()):
+                rc = _closure_receiver_call(prog, b, c)
+                if rc is not None:
+                    ru.append(rc)
         ok = len(ru) >= 1
         live_at = []
         for bb, t in ru:
